@@ -43,6 +43,7 @@ struct RefDemux {
   int cur = -1;
   long n = 0;  // byte pairs seen so far (the current pair's number while pair() runs and until the next one)
   std::vector<Delivery> out;
+  void reset() { pk.clear(); cur = -1; }   // vbi_xds_demux_reset(): every packet in progress is forgotten
   void pair(int b0, int b1) {
     n++;
     bool par_ok = (__builtin_popcount(b0 & 0xFF) & 1) && (__builtin_popcount(b1 & 0xFF) & 1);
@@ -175,6 +176,7 @@ struct C09 : World {
       for (int i = 0; i < n; i++) { Op o; o.task = K; o.kind = "cap"; o.a = {1 + (int64_t)r.below(6), (int64_t)r.below(1000)}; p.ops.push_back(o); }
     }
     if (r.chance(1, 2)) { Op o; o.task = K + 1; o.kind = "idle"; o.a = {1 + (int64_t)r.below(8)}; p.ops.push_back(o); }
+    if (r.chance(1, 3)) for (int i = 1 + (int)r.below(3); i > 0; i--) { Op o; o.task = K + 1; o.kind = "dxreset"; o.a = {(int64_t)r.below(24)}; p.ops.push_back(o); }
     return p;
   }
 
@@ -249,6 +251,7 @@ struct C09 : World {
       for (int i = 0; i < n; i++) { Op o; o.task = K; o.kind = "cap"; o.a = {1 + (int64_t)r.below(6), (int64_t)r.below(1000)}; p.ops.push_back(o); }
     }
     if (r.chance(1, 2)) { Op o; o.task = K + 1; o.kind = "idle"; o.a = {1 + (int64_t)r.below(8)}; p.ops.push_back(o); }
+    if (r.chance(1, 3)) for (int i = 1 + (int)r.below(3); i > 0; i--) { Op o; o.task = K + 1; o.kind = "dxreset"; o.a = {(int64_t)r.below(24)}; p.ops.push_back(o); }
   }
 
   // ------------------------------------------------------------------ run --
@@ -263,6 +266,7 @@ struct C09 : World {
     vbi_xds_demux* xd = nullptr;
     vbi_decoder* dec = nullptr;
     RefDemux ref;
+    RefDemux refd;   // what vbi_xds_demux must deliver: the same pairs, plus the resets of the demultiplexer alone
     std::vector<Delivery> got;
     size_t matched_got = 0;
     std::set<size_t> pos;  // possible numbers of reference deliveries consumed so far
@@ -483,6 +487,7 @@ struct C09 : World {
     s.ctx->log("pair %02x %02x", b0, b1);
     size_t ref_before = s.ref.out.size();
     s.ref.pair(b0, b1);
+    s.refd.pair(b0, b1);
     if (!((__builtin_popcount(b0 & 0xFF) & 1) && (__builtin_popcount(b1 & 0xFF) & 1))) announce_disturb();
     for (size_t i = ref_before; i < s.ref.out.size(); i++) {
       const Delivery& d = s.ref.out[i];
@@ -521,20 +526,20 @@ struct C09 : World {
       const Delivery& gd = s.got[s.matched_got];
       std::set<size_t> np;
       for (size_t i : s.pos) {
-        for (size_t k = i; k < s.ref.out.size(); k++) {
-          if (matches(s.ref.out[k], gd)) np.insert(k + 1);
-          if (!optional_ref(s.ref.out[k])) break;
+        for (size_t k = i; k < s.refd.out.size(); k++) {
+          if (matches(s.refd.out[k], gd)) np.insert(k + 1);
+          if (!optional_ref(s.refd.out[k])) break;
         }
       }
       if (np.empty()) {
         size_t i = *s.pos.begin();
-        while (i < s.ref.out.size() && optional_ref(s.ref.out[i]) && !(s.ref.out[i].cls == gd.cls && s.ref.out[i].type == gd.type)) i++;
-        if (i >= s.ref.out.size())
+        while (i < s.refd.out.size() && optional_ref(s.refd.out[i]) && !(s.refd.out[i].cls == gd.cls && s.refd.out[i].type == gd.type)) i++;
+        if (i >= s.refd.out.size())
           s.ctx->fail("oracle:xds-spurious", "demux delivered %d/0x%02x size %zu [%s] which the reference does not deliver (invalid, duplicate or never sent)", gd.cls, gd.type, gd.bytes.size(), hex(gd.bytes).c_str());
         else if (gd.bytes.size() > 32)
           s.ctx->fail("oracle:xds-size", "delivered %d/0x%02x with %zu > 32 bytes", gd.cls, gd.type, gd.bytes.size());
         else
-          s.ctx->fail("oracle:xds-delivery", "demux delivered %d/0x%02x [%s], reference expects %d/0x%02x [%s]", gd.cls, gd.type, hex(gd.bytes).c_str(), s.ref.out[i].cls, s.ref.out[i].type, hex(s.ref.out[i].bytes).c_str());
+          s.ctx->fail("oracle:xds-delivery", "demux delivered %d/0x%02x [%s], reference expects %d/0x%02x [%s]", gd.cls, gd.type, hex(gd.bytes).c_str(), s.refd.out[i].cls, s.refd.out[i].type, hex(s.refd.out[i].bytes).c_str());
         return;
       }
       s.pos.swap(np);
@@ -545,9 +550,9 @@ struct C09 : World {
     const Delivery* miss = nullptr;
     for (size_t i : s.pos) {
       size_t k = i;
-      while (k < s.ref.out.size() && optional_ref(s.ref.out[k])) k++;
-      if (k >= s.ref.out.size()) { ok = true; break; }
-      if (!miss) miss = &s.ref.out[k];
+      while (k < s.refd.out.size() && optional_ref(s.refd.out[k])) k++;
+      if (k >= s.refd.out.size()) { ok = true; break; }
+      if (!miss) miss = &s.refd.out[k];
     }
     if (!ok && miss)
       s.ctx->fail("oracle:xds-lost", "valid packet %d/0x%02x [%s] was not delivered", miss->cls, miss->type, hex(miss->bytes).c_str());
@@ -660,6 +665,16 @@ struct C09 : World {
             static const int ctl[] = {0x14, 0x15, 0x1C, 0x1D};
             send(t, tx::odd_parity((uint8_t)ctl[r.below(4)]), tx::odd_parity((uint8_t)(0x20 + r.below(16))), false);
             for (int k = 0; k < n; k++) send(t, tx::odd_parity((uint8_t)(0x20 + r.below(0x60))), tx::odd_parity((uint8_t)(0x20 + r.below(0x60))), false);
+          } else if (op->kind == "dxreset") {
+            // the application resets the XDS demultiplexer (channel change) at some point of the stream, mid-packet as a
+            // rule: packets in progress are forgotten; what arrives of them afterwards has no start
+            for (int k = (int)(llabs(op->arg(0)) % 24); k > 0 && !ctx.failed; k--) sched.yield();
+            if (ctx.failed) return;
+            ctx.log("demux reset");
+            { SutScope ss; vbi_xds_demux_reset(g->xd); }
+            g->refd.reset();
+            ctx.count("fault_demux_reset");
+            for (auto& kv : g->refd.pk) (void)kv;
           } else if (op->kind == "idle") {
             int n = (int)(op->arg(0) % 16);
             for (int k = 0; k < n; k++) {
@@ -684,7 +699,7 @@ struct C09 : World {
     if (!ctx.failed && alloc_track_available() && alloc_live_blocks() != 0)
       ctx.fail("leak", "%zu blocks (%zu bytes; sizes %s) still allocated after delete", alloc_live_blocks(), alloc_live_bytes(), alloc_live_summary().c_str());
     size_t certain = 0;
-    for (auto& d : st.ref.out) if (!d.maybe && demux_knows(d.cls, d.type)) certain++;
+    for (auto& d : st.refd.out) if (!d.maybe && demux_knows(d.cls, d.type)) certain++;
     ctx.count("ref_deliveries", (int64_t)certain);
     ctx.count("prog_info_events", (int64_t)st.prog_events.size());
     ctx.count("network_events", (int64_t)st.net_events.size());
